@@ -428,6 +428,18 @@ def extend(run: Run, prop: str, tier: str, rnd: random.Random) -> None:
                 d = (0xFFFF, 0x80C3, 0x00E9, 0x7F1F)[len(iprogs) % 4]
                 iprogs.append(ident_program("connect", pl, "ET", d))
                 iprogs.append(ident_program("connect", pl, "DT", d))
+        # discover() / connect(do_discover) in every environment of the discovery machine (Discover.tla: who answers the
+        # identification probe, once or always, which families answer their information / runtime requests), retries 0..2:
+        # whatever the fall-through ends in, only the documented exception family leaves the call
+        for k, env in enumerate(disc_envs()):
+            if quick and k % 4 and env["tag"] != "silent":
+                continue
+            dp = disc_program(env)
+            r_ = k % 3
+            dp["calls"] = [{"api": "goodwe.discover", "args": ["inv0"], "kw": {"retries": r_, "timeout": 1}}] if k % 2 == 0 else \
+                [{"api": "goodwe.connect", "args": ["inv0"], "kw": {"do_discover": True, "retries": r_, "timeout": 1}}]
+            dp["case"] = {"case": "call", "what": f"discover-env:{env['tag']}:{int(env['once'])}:{k}:r{r_}"}
+            iprogs.append(dp)
         cases += engine.parallel_map("harness.checks_api", "run_call", iprogs, procs=16, chunk=20)
     else:
         grid = [(2, 1), (3, 0), (1, 4), (0.5, 2)] if quick else [(2, 1), (3, 0), (1, 4), (0.5, 2), (1, 3), (5, 5), (0.25, 1), (10, 0)]
@@ -443,6 +455,25 @@ def extend(run: Run, prop: str, tier: str, rnd: random.Random) -> None:
                 eprogs.append(entry_program("discover", t, r, None, answer=tag))
             eprogs.append(entry_program("connect_discover", t, r, None, answer="DTU"))
         eprogs.append(entry_program("search", 1, 0, None))
+        # composite calls of an inverter object (several requests per call): the inverter answers every block but one -
+        # each request of the call in turn goes unanswered - and that request gets retries + 1 transmissions, one timeout
+        # apart, whichever call issued it and wherever in the call it stands (probes of optional features included)
+        BLOCKS = {"ET": [("read_device_info", [35000, 35040]), ("read_device_info", [47547, 47552]), ("read_device_info", [47589, 47594]),
+                         ("read_runtime_data", [35100, 35224]), ("read_runtime_data", [37000, 37023]), ("read_runtime_data", [36000, 36044]),
+                         ("read_settings_data", [47510, 47510])],
+                  "DT": [("read_device_info", [30000, 30050]), ("read_runtime_data", [30100, 30172]), ("read_runtime_data", [30195, 30209])],
+                  "ES": [("read_runtime_data", None)]}
+        for t, r in grid:
+            for fam, port in (("ET", 8899), ("ET", 502), ("DT", 8899), ("DT", 502), ("ES", 8899)):
+                for api, blk in BLOCKS[fam]:
+                    sim = {"regs": device_regs(fam, serial_for("ETU" if fam == "ET" else "DTU"), 10000 if len(eprogs) % 2 else 25000)}
+                    if fam == "ES":
+                        sim["aa55"] = {"info": list(es_info("95048ESU000W0000")), "mute_runtime": True}
+                    else:
+                        sim["silent"] = [blk]
+                    calls = [{"api": "read_device_info"}] + ([{"api": api}] if api != "read_device_info" else [])
+                    eprogs.append({"inv": [{"family": fam, "port": port, "sim": sim, "retries": r, "timeout": t}], "calls": calls, "delay": 0,
+                                   "case": {"case": "entry", "what": f"composite:{fam}:{port}:{api}:{blk}", "T": int(round(t / TICK)), "retries": r}})
         # a long-lived inverter object: whatever the outcomes so far (answered, silence, refused, network failure), an
         # unanswered request gets retries + 1 transmissions spaced one timeout
         for n in (2, 3, 4, 5, 6):
